@@ -322,6 +322,12 @@ def _run(pid, repo, out_dir, timeout, spec, ps, res, cmds, t0):
                         for t in _theorems_of(text2):
                             failed[t] = {"theorem": t, "error_tail": "depends on the failed " + dep[0], "needs": needs2}
             continue
+        if "makes inconsistent assumptions" in se or "Cannot find a physical path" in se or "Unable to locate library" in se:
+            # the compiled theories (coq/theories/*.vo) are stale or missing: nothing was checked,
+            # no tie is broken; rebuild the theories (the proof leg of ./check does) and run again
+            res["error"] = "compiled theories are stale or missing (rebuild coq/theories first): " + _tail(se, 4)
+            res["env_error"] = True
+            break
         res["error"] = "template or prelude does not compile: " + _tail(se)
         for i in included:
             for t in _theorems_of(segs[i][2]):
